@@ -19,6 +19,38 @@ _role = {}             # id(chemistry object) -> 'init' | 'main'
 _tids = {}             # (scenario, id(model)) -> small int
 _grids = {}            # digest -> small int
 _keep = []             # keep wrapped objects alive so ids are not recycled
+_snap = {}             # id(model) -> digests of the exposed profile arrays as initialize_profiles left them
+_starsnap = {}         # id(model) -> digest of the stellar spectrum as star.initialize left it
+
+
+def _digest(a):
+    try:
+        x = np.ascontiguousarray(np.asarray(a, dtype=float))
+        return hashlib.sha1(x.tobytes()).hexdigest() + str(x.shape)
+    except Exception:
+        return None
+
+
+def _profiles(model):
+    """The arrays a forward model exposes after initialize_profiles (what contributions and the path integral read)."""
+    out = {}
+    def put(name, f):
+        try:
+            out[name] = _digest(f())
+        except Exception:
+            pass
+    put('pressure_levels', lambda: model.pressure.pressure_profile_levels)
+    put('pressure', lambda: model.pressureProfile)
+    put('temperature', lambda: model.temperatureProfile)
+    put('altitude', lambda: model.altitudeProfile)
+    put('altitude_boundaries', lambda: model.altitude_boundaries)
+    put('deltaz', lambda: model.deltaz)
+    put('density', lambda: model.densityProfile)
+    put('gravity', lambda: model.gravity_profile)
+    put('scaleheight', lambda: model.scaleheight_profile)
+    put('mix', lambda: model.chemistry.mixProfile)
+    put('mu', lambda: model.chemistry.muProfile)
+    return out
 
 
 def _gid(arr):
@@ -52,6 +84,8 @@ def start(scenario):
 def stop():
     global _log
     out, _log = _log, None
+    _snap.clear()
+    _starsnap.clear()
     _model_of.clear()
     _role.clear()
     return out or []
@@ -120,7 +154,17 @@ def install():
                 except BaseException:
                     _emit(mid, evname + '_raised')
                     raise
-                _emit(mid, evname + '_end')
+                dirty = ''
+                if mid is not None:
+                    if evname == 'init':
+                        _snap[mid] = _profiles(self)
+                    elif mid in _snap:        # a public evaluation: the profiles must be as initialize_profiles left them
+                        now = _profiles(self)
+                        changed = sorted(n for n, d in _snap[mid].items() if now.get(n) != d)
+                        if mid in _starsnap and _digest(getattr(self._star, 'sed', None)) != _starsnap[mid]:
+                            changed.append('star_sed')
+                        dirty = ','.join(changed)
+                _emit(mid, evname + '_end', c=dirty)
                 return r
             return w
         return make
@@ -212,6 +256,8 @@ def install():
         def w(self, wngrid):
             r = nested(self, 'star', orig, (wngrid,), {})
             if outermost(self, 'star'):
+                if _log is not None and _model_of.get(id(self)) is not None:
+                    _starsnap[_model_of[id(self)]] = _digest(getattr(self, 'sed', None))
                 _emit(_model_of.get(id(self)), 'star', g=_gid(wngrid))
             return r
         return w
